@@ -33,9 +33,9 @@ SPECS = {
                 "dedup_by", "dedup_by_key", "into_iter", "into_bump_slice", "into_boxed", "drop", "append", "split_off", "extend",
                 "clone", "insert", "push"], thorough_scale=40,
                partial=["Own preservation is proved for: push, pop, insert, remove, swap_remove, truncate/clear, append, split_off, drain, "
-                        "into_iter, retain, drain_filter, drop, into_bump_slice; NOT proved (drop-ledger oracle + model comparison of the "
-                        "drops/moved sequences only): resize, extend, extend_from_slice, splice, dedup(_by/_by_key), clone, into_boxed_slice, "
-                        "from_iter_in/collect_in, vec!"]),
+                        "into_iter, retain, drain_filter, dedup(_by/_by_key), extend (caller's iterator), drop, into_bump_slice (and, in "
+                        "Props/C16, resize, extend_from_slice, clone, from_iter_in); NOT proved (drop-ledger oracle + model comparison of the "
+                        "drops/moved sequences only): splice, into_boxed_slice, vec!"]),
     # unwinding paths: every callback index as panic point
     "C16": vec("BumpVerif.Props.C16",
                [("panics", 2400, 45), ("iters", 200, 40)],
@@ -43,7 +43,8 @@ SPECS = {
                ["retain", "drain_filter", "dedup_by", "dedup_by_key", "resize", "extend", "extend_from_slice", "clone", "splice",
                 "from_iter", "collect_in", "vmacro_n", "truncate", "clear", "drop", "into_iter", "drain", "into_boxed"],
                quick_release=[("panics", 400, 45)], thorough_scale=40,
-               partial=["full theorems (every callback answer function / panic index): drain_filter, retain, truncate, clear, drop, "
-                        "into_iter and drain dropped with panicking destructors; NOT proved (panic-injection run only): dedup_by(_key), "
-                        "resize / extend_from_slice / clone with a panicking Clone, extend / splice / from_iter_in with a panicking iterator, vec!"]),
+               partial=["full theorems (every callback answer function / panic index): drain_filter, retain, dedup_by(_key), truncate, clear, "
+                        "drop, into_iter and drain dropped with panicking destructors, resize / extend_from_slice / clone with a panicking "
+                        "Clone, extend / from_iter_in with a panicking iterator; NOT proved (panic-injection run only): splice with a "
+                        "panicking iterator, vec!"]),
 }
